@@ -10,8 +10,8 @@ SPEC = os.path.join(ROOT, "spec")
 HARNESS = os.path.join(ROOT, "harness")
 BUILD = os.path.join(ROOT, ".build")
 OUT = os.path.join(ROOT, "out")
-EVID = os.path.join(ROOT, "evidence")
-REPO = "/repo"
+EVID = os.environ.get("VERIF_EVID", os.path.join(ROOT, "evidence"))  # VERIF_EVID: private evidence dir for mutation runs
+REPO = os.environ.get("VERIF_REPO", "/repo")  # alternative tree (scratch worktrees for mutation testing)
 
 GOENV = dict(os.environ, GOFLAGS="-mod=mod", GOPROXY="off", GOSUMDB="off", GOTOOLCHAIN="local",
              GOCACHE=os.environ.get("GOCACHE", os.path.join(BUILD, "gocache")))
@@ -41,13 +41,23 @@ def build_harness(tags=("verif",), race=False):
     """go build of the harness against the current working tree of /repo."""
     os.makedirs(BUILD, exist_ok=True)
     name = "zx-" + "-".join(tags) + ("-race" if race else "")
+    hdir = HARNESS
+    if REPO != "/repo":
+        # same harness sources, module replaced by the alternative tree
+        tag = hashlib.md5(REPO.encode()).hexdigest()[:8]
+        name += "-" + tag
+        hdir = os.path.join(BUILD, "h-" + tag)
+        shutil.rmtree(hdir, ignore_errors=True)
+        shutil.copytree(HARNESS, hdir)
+        gm = open(os.path.join(hdir, "go.mod")).read().replace("=> /repo", "=> " + REPO).replace("../fakefaiss", os.path.join(ROOT, "fakefaiss"))
+        open(os.path.join(hdir, "go.mod"), "w").write(gm)
     out = os.path.join(BUILD, name)
     cmd = ["go", "build", "-tags", ",".join(tags), "-o", out]
     if race:
         cmd.insert(2, "-race")
     cmd.append(".")
     t0 = time.time()
-    p = subprocess.run(cmd, cwd=HARNESS, env=GOENV, stdout=subprocess.PIPE, stderr=subprocess.STDOUT, text=True)
+    p = subprocess.run(cmd, cwd=hdir, env=GOENV, stdout=subprocess.PIPE, stderr=subprocess.STDOUT, text=True)
     if p.returncode != 0:
         raise Inconclusive("harness build failed (tags=%s):\n%s" % (tags, p.stdout[-4000:]))
     log("built %s in %.1fs" % (name, time.time() - t0))
